@@ -122,6 +122,12 @@ Clauses ==
          \/ Dis("owned_glob_partitions_differently")
     /\ (p.par_ok /\ p.par_prefix = p.prefix /\ p.par_has_post = p.has_post /\ p.par_post = p.post)
          \/ Dis("parsed_glob_partitions_differently")
+    (* partition_or_empty / partition_or_tree: the same prefix and the same postfix; when there is none, the empty *)
+    (* glob (matches the empty path only) and the tree glob `**` (matches every path that is not rooted)             *)
+    /\ (p.poe_prefix = p.prefix /\ p.pot_prefix = p.prefix) \/ Dis("partition_or_variant_has_another_prefix")
+    /\ (IF p.has_post THEN p.poe = p.post /\ p.pot = p.post /\ p.poe_dfa = p.post_dfa /\ p.pot_dfa = p.post_dfa
+        ELSE p.poe = <<>> /\ p.pot = <<42, 42>> /\ p.poe_dfa = p.empty_dfa /\ p.pot_dfa = p.tree_dfa)
+         \/ Dis("partition_or_variant_has_another_postfix")
     /\ (p.has_post =>
          /\ (p.post_root = "never") \/ Dis("postfix_rooted")
          /\ (p.re_has_post /\ p.re_prefix = <<>> /\ p.re_post = p.post) \/ Dis("repartition_not_idempotent")
